@@ -1,7 +1,144 @@
-From OV.C28 Require Import Model Spec.
+(* C28 — the statements.  Vocabulary: Model.v (the trie as transcribed from trie.{hpp,tpp,cpp}),
+   Spec.v (finite map with longest-stored-prefix lookup), Statements.v (abs_op, nonempty_ops).
+   Every proof is in Proofs.v; this file only states, cites and prints assumptions.
+   Characters are written as their codes: 97 = 'a', 98 = 'b', 99 = 'c', 100 = 'd', 120 = 'x'. *)
 From Coq Require Import List ZArith.
+From OV.C28 Require Import Model Spec Statements.
+From OV.C28 Require Proofs.
 Import ListNotations.
 Local Open Scope Z_scope.
-Example placeholder : node_get [1;2] (Node (-1) []) = (0, -1).
-Proof. reflexivity. Qed.
-Print Assumptions placeholder.
+
+(* For every history of add / remove / freeze / defrost / clear over non-empty keys, with or
+   without autoFreeze, and every query q (d is the trie's defaultValue):
+   getLongest returns the longest stored prefix of q with the most recently added value,
+   get and has succeed exactly for stored keys, size counts the stored keys.
+   `value_of ... = Some _` also says: no out-of-bounds read in the frozen binary search
+   (QOob) and no values[valueIndex] outside the value vector. *)
+Theorem trie_refines_map : forall (auto : bool) (ops : list op) (q : key) (d : Z),
+  nonempty_ops ops ->
+  let t := run auto ops in
+  let m := fold_left s_step (map abs_op ops) [] in
+  value_of t d (t_getLongest q t)
+    = Some (match spec_getLongest q m with
+            | Some (l, v) => (true, l, v)
+            | None => (false, 0, d)
+            end)
+  /\ value_of t d (t_get q t)
+    = Some (match spec_get q m with
+            | Some v => (true, Z.of_nat (length q), v)
+            | None => (false, 0, d)
+            end)
+  /\ (q <> [] ->
+      t_has q t = Some (match spec_get q m with Some _ => true | None => false end))
+  /\ t_size t = spec_size m.
+Proof. exact Proofs.trie_refines_map. Qed.
+Print Assumptions trie_refines_map.
+
+(* On every reachable trie the frozen arrays + binary search and the node tree give the same
+   answers (result records are equal: success flag, length and value index). *)
+Theorem frozen_eq_unfrozen : forall (auto : bool) (ops : list op) (q : key),
+  nonempty_ops ops ->
+  let t := run auto ops in
+  t_getLongest q (t_freeze t) = t_getLongest q (t_defrost t)
+  /\ t_get q (t_freeze t) = t_get q (t_defrost t)
+  /\ t_has q (t_freeze t) = t_has q (t_defrost t)
+  /\ t_size (t_freeze t) = t_size (t_defrost t).
+Proof. exact Proofs.frozen_eq_unfrozen. Qed.
+Print Assumptions frozen_eq_unfrozen.
+
+(* Explicitly: no lookup on a reachable trie reads outside the frozen arrays or `values`. *)
+Theorem lookups_in_bounds : forall (auto : bool) (ops : list op) (q : key) (d : Z),
+  nonempty_ops ops ->
+  let t := run auto ops in
+  t_getLongest q t <> QOob /\ t_get q t <> QOob
+  /\ value_of t d (t_getLongest q t) <> None /\ value_of t d (t_get q t) <> None.
+Proof. exact Proofs.lookups_in_bounds. Qed.
+Print Assumptions lookups_in_bounds.
+
+(* The pinned source (`cIndex + 1` in trieNode::get = node_get_gen 1; the repaired source is
+   node_get_gen 0) violates the specification: with "a" and "abc" stored the query q = "abd" is
+   answered with length 2 although the longest stored prefix has length 1, and q2 = "ab", which
+   is not stored, is answered with its full length (so get/has succeed on it). *)
+Theorem pinned_variant_refuted :
+  exists (ops : list op) (q q2 : key),
+    nonempty_ops ops /\
+    let t := run false ops in
+    let m := fold_left s_step (map abs_op ops) [] in
+    spec_getLongest q m = Some (1, 1) /\
+    node_get_gen 0 q 0 (t_root t) = (1, 0) /\
+    node_get_gen 1 q 0 (t_root t) = (2, 0) /\
+    spec_get q2 m = None /\
+    node_get_gen 0 q2 0 (t_root t) = (1, 0) /\
+    node_get_gen 1 q2 0 (t_root t) = (Z.of_nat (length q2), 0).
+Proof. exact Proofs.pinned_variant_refuted. Qed.
+Print Assumptions pinned_variant_refuted.
+
+(* ---- non-vacuity: concrete histories that meet the hypotheses, with non-trivial answers ---- *)
+
+(* 5 adds (one overwriting after the freeze), 2 removes (one of a key that is a proper prefix of
+   stored keys, one of an absent key), an explicit freeze; the trie ends frozen; the query
+   "abcd" has the stored prefixes "ab" and "abc" *)
+Example trie_refines_map_nonvacuous :
+  let ops := [OAdd [97] 1; OAdd [97; 98; 99] 2; OAdd [98] 3; OAdd [97; 98] 4;
+              ORemove [97]; OFreeze; OAdd [97; 98; 99] 5; ORemove [120]] in
+  let q := [97; 98; 99; 100] in
+  let t := run false ops in
+  let m := fold_left s_step (map abs_op ops) [] in
+  nonempty_ops ops /\
+  spec_getLongest q m = Some (3, 5) /\
+  value_of t (-7) (t_getLongest q t) = Some (true, 3, 5) /\
+  spec_get [97] m = None /\ t_has [97] t = Some false /\
+  spec_get [97; 98] m = Some 4 /\ value_of t (-7) (t_get [97; 98] t) = Some (true, 2, 4) /\
+  t_size t = 3 /\ spec_size m = 3 /\
+  t_frozen t = Some (freeze_node (t_root t)).
+Proof.
+  cbv zeta. split; [repeat constructor; discriminate|].
+  vm_compute. repeat split; reflexivity.
+Qed.
+
+(* autoFreeze on, 4 adds, a remove, a defrost, a freeze, a clear in the middle *)
+Example frozen_eq_unfrozen_nonvacuous :
+  let ops := [OAdd [120] 9; OClear; OAdd [97] 1; OAdd [97; 98; 99] 2; OAdd [98] 3;
+              ODefrost; ORemove [98]; OFreeze] in
+  let q := [97; 98; 99; 100] in
+  let t := run true ops in
+  nonempty_ops ops /\
+  t_getLongest q (t_freeze t) = QOk true 3 1 /\
+  t_getLongest q (t_defrost t) = QOk true 3 1 /\
+  t_getLongest [97; 98] (t_freeze t) = QOk true 1 0 /\
+  t_getLongest [97; 98] (t_defrost t) = QOk true 1 0 /\
+  t_size (t_freeze t) = 2 /\ t_size (t_defrost t) = 2.
+Proof.
+  cbv zeta. split; [repeat constructor; discriminate|].
+  vm_compute. repeat split; reflexivity.
+Qed.
+
+(* the frozen lookup of the first example really goes through the binary search on a frozen
+   array of 5 entries + sentinel, and returns a proper result *)
+Example lookups_in_bounds_nonvacuous :
+  let ops := [OAdd [97] 1; OAdd [97; 98; 99] 2; OAdd [98] 3; OAdd [97; 98] 4;
+              ORemove [97]; OFreeze] in
+  let t := run false ops in
+  nonempty_ops ops /\
+  option_map (fun f => length (f_arr f)) (t_frozen t) = Some 5%nat /\
+  t_getLongest [97; 98; 99; 100] t = QOk true 3 0 /\
+  t_get [97; 98; 100] t = QOk false 0 (-1).
+Proof.
+  cbv zeta. split; [repeat constructor; discriminate|].
+  vm_compute. repeat split; reflexivity.
+Qed.
+
+(* the repaired constant on the refutation's input: the answers the specification asks for *)
+Example pinned_variant_repaired :
+  let ops := [OAdd [97] 1; OAdd [97; 98; 99] 2] in
+  let t := run true ops in
+  let m := fold_left s_step (map abs_op ops) [] in
+  nonempty_ops ops /\
+  spec_getLongest [97; 98; 100] m = Some (1, 1) /\
+  value_of t (-7) (t_getLongest [97; 98; 100] t) = Some (true, 1, 1) /\
+  value_of t (-7) (t_getLongest [97; 98; 100] (t_defrost t)) = Some (true, 1, 1) /\
+  t_has [97; 98] t = Some false /\ t_has [97; 98] (t_defrost t) = Some false.
+Proof.
+  cbv zeta. split; [repeat constructor; discriminate|].
+  vm_compute. repeat split; reflexivity.
+Qed.
